@@ -359,7 +359,7 @@ def main(ck):
     macro_agg(ck, con, per, state); lap('macro_agg')
     macro_misc(ck, con, per, state, 3000 if quick else 40000); lap('macro_misc')
     fill_single_without_groups(ck)
-    e2e(ck, info, 84 if quick else 1800, state); lap('e2e')
+    e2e(ck, info, 84 if quick else 1200, state); lap('e2e')
     ck.note('phase_seconds', times)
     ck.note('years', [years[0], years[-1], len(years)])
     ck.note('periods', len(per))
